@@ -376,6 +376,10 @@ class Prop(SeqProp):
                 if isinstance(e, (KeyboardInterrupt, SystemExit)):
                     raise
                 out.append(fin(f"err {err_name(e)}"))
+            if len(out) == 6 and kind in ("distinct", "falsy") and len(nodes) <= 40:
+                prob = self.copy_with_handles(l, nodes)
+                if prob is not None:
+                    out[-1] = "copy-problem " + prob + " ;; " + out[-1]
             if kind == "node" and not donor_intact():
                 out[-1] = "payload-list-damaged " + out[-1]
                 break
@@ -383,9 +387,42 @@ class Prop(SeqProp):
             out.append("aborted")
         return out
 
+    @staticmethod
+    def copy_with_handles(l, nodes):
+        """the list is deep-copied / pickled together with node handles the caller holds (what the caches keep: a list and a dict of
+        its nodes): in the copy the handles are the nodes of the copied list, position by position"""
+        import copy
+        import pickle
+
+        def walk(lst):
+            out_, n, fuel = [], lst.head, 200
+            while n is not None and fuel > 0:
+                out_.append(n); n = n.next_node; fuel -= 1
+            return out_
+
+        members = walk(l)
+        pos = {id(n): i for i, n in enumerate(members)}
+        handles = [n for n in nodes if id(n) in pos]
+        for name, make in (("copy.deepcopy", lambda: copy.deepcopy((l, handles))),
+                           ("pickle round trip", lambda: pickle.loads(pickle.dumps((l, handles))))):
+            try:
+                l2, h2 = make()
+            except (RecursionError, TypeError, pickle.PicklingError, AttributeError):
+                continue
+            m2 = walk(l2)
+            if len(m2) != len(members) or len(l2) != len(members):
+                return f"the {name} of the list has {len(m2)} nodes / len {len(l2)}, the list has {len(members)}"
+            if any(m2[pos[id(h)]] is not hc for h, hc in zip(handles, h2)):
+                return f"in the {name} of (list, handles) the copied handles are not the nodes of the copied list"
+            if walk(l) != members:
+                return f"making a {name} changed the list"
+        return None
+
     # ---- independent oracle: a Python list of node ids -------------------------------------------------------------
     def oracle(self, case, impl_out):
         for k, line in enumerate(impl_out):
+            if line.startswith("copy-problem "):
+                return f"op {k} `{case.ops[k]}`: {line[13:].split(' ;; ')[0][:400]}"
             if "traversal-mismatch" in line:
                 return (f"op {k} `{case.ops[k]}`: iter_nodes() / iteration do not yield the nodes / payloads in link order: "
                         f"{line[:300]!r}")
